@@ -674,7 +674,7 @@ pub fn parent_main(prop: &PropDef, tier: Tier, seed: u64) -> i32 {
             }
             continue;
         }
-        if sig == "harness-window" {
+        if sig == "harness-window" || sig == "harness-panic" || sig == "harness-world" {
             inconclusive = true;
             notes.push(format!("harness precondition failed: {}", v["msg"].as_str().unwrap_or("")));
             continue;
